@@ -337,11 +337,26 @@ def coerce(v, ty):
         return tup_mk(ty, v.items)
     if isinstance(v, PyTup) and ty[0] == "opt" and ty[1][0] == "tup":
         return opt_some(ty, tup_mk(ty[1], v.items))
+    if isinstance(v, PyTup) and ty[0] == "ref":
+        # a tuple stored where an arbitrary object is expected: opaque, but a function of its components
+        comps = []
+        for it in v.items:
+            try:
+                comps.append(coerce(it, ANY).t)
+            except Unsupported:
+                comps.append(fresh("tupcomp", RefS))
+        f = z3.Function("pytuple%d" % len(comps), *([RefS] * len(comps) + [RefS]))
+        return Val(ty, f(*comps) if comps else z3.Const("pytuple0", RefS))
+    if isinstance(v, LVal) and ty[0] == "ref":
+        return Val(ty, fresh("pylist", RefS))
     if not isinstance(v, Val):
         raise Unsupported("cannot coerce %r to %r" % (v, ty))
     if v.ty == ty:
         return v
     k, vk = ty[0], v.ty[0]
+    if k == "ref" and vk in ("int", "real", "bool"):
+        g = z3.Function("box_real", z3.RealSort(), RefS)
+        return Val(ty, g(to_real(v)))
     if k == "ref" and vk in ("ref", "str"):
         # static class narrowing/widening is free
         return Val(ty if ty[1] is not None else v.ty, v.t)
